@@ -425,8 +425,10 @@ def obligations(tier):
         perms = list(itertools.permutations(range(k)))
         if k == 4:
             perms = [(0, 1, 2, 3), (3, 1, 0, 2), (1, 0, 3, 2), (2, 3, 0, 1), (3, 2, 1, 0)] if tier == "thorough" else [(3, 1, 0, 2)]
+            if "T" in kinds:
+                perms = [(3, 1, 0, 2)]         # dimension 24: half an hour per obligation, one permutation with one symbolic factor
         for names in perms:
-            for sym in (range(k) if tier == "thorough" else [k - 1]):
+            for sym in (range(k) if (tier == "thorough" and not (k == 4 and "T" in kinds)) else [k - 1]):
                 out += specs("C07.state", [{"kinds": kinds, "names": list(names), "sym": sym}], ob_state, k)
         if k == 2:
             out += specs("C07.state", [{"kinds": kinds, "names": [1, 0], "sym": "all"}], ob_state, 3)
